@@ -136,15 +136,18 @@ func checkWeights(c weightCase) (o pbt.Outcome, err error) {
 	}
 	rand.Seed(c.Seed)
 	distinct := false
-	for d := 0; d < c.Draws; d++ {
-		var w []float64
-		pbt.Guarded("TestWeights", c, pbt.WatchdogLimit(20*time.Second), func() {
+	// the samplers are rejection loops: one watchdog for the draws of the case (see checkIG)
+	ws := make([][]float64, c.Draws)
+	pbt.Guarded("TestWeights", c, pbt.WatchdogLimit(20*time.Second), func() {
+		for d := range ws {
 			if c.Kind == "gamma" {
-				w = dna.BuildWeightsGamma(al)
+				ws[d] = dna.BuildWeightsGamma(al)
 			} else {
-				w = dna.BuildWeightsDirichlet(al)
+				ws[d] = dna.BuildWeightsDirichlet(al)
 			}
-		})
+		}
+	})
+	for d, w := range ws {
 		if len(w) != c.L {
 			return o, fmt.Errorf("%s weights, draw %d: %d weights for an alignment of %d sites", c.Kind, d, len(w), c.L)
 		}
@@ -266,17 +269,23 @@ func genDirichlet(t *rapid.T) dirCase {
 
 func checkDirichlet(c dirCase) (o pbt.Outcome, err error) {
 	rand.Seed(c.Seed)
-	// the gamma samplers are rejection loops: same watchdog as for the incomplete gamma routine
-	call := func() (s []float64, e error) {
-		pbt.Guarded("TestDirichlet", c, pbt.WatchdogLimit(20*time.Second), func() {
-			if c.Flat {
-				s, e = stats.Dirichlet1(c.Factor, c.N)
-			} else {
-				s, e = stats.Dirichlet(c.Factor, c.Alpha...)
-			}
-		})
-		return
+	// the gamma samplers are rejection loops: same watchdog as for the incomplete gamma routine,
+	// one for all the draws of the case
+	ndraws := c.Draws
+	if !c.Valid {
+		ndraws = 1
 	}
+	samples := make([][]float64, ndraws)
+	errs := make([]error, ndraws)
+	pbt.Guarded("TestDirichlet", c, pbt.WatchdogLimit(20*time.Second), func() {
+		for d := 0; d < ndraws; d++ {
+			if c.Flat {
+				samples[d], errs[d] = stats.Dirichlet1(c.Factor, c.N)
+			} else {
+				samples[d], errs[d] = stats.Dirichlet(c.Factor, c.Alpha...)
+			}
+		}
+	})
 	name := "Dirichlet"
 	n := len(c.Alpha)
 	if c.Flat {
@@ -284,8 +293,7 @@ func checkDirichlet(c dirCase) (o pbt.Outcome, err error) {
 		n = c.N
 	}
 	if !c.Valid {
-		_, e := call()
-		if e == nil {
+		if e := errs[0]; e == nil {
 			return o, fmt.Errorf("%s accepted invalid parameters (%s) without an error: factor %v alpha %v n %d", name, c.Why, c.Factor, c.Alpha, c.N)
 		}
 		o.NonTrivial = true
@@ -294,7 +302,7 @@ func checkDirichlet(c dirCase) (o pbt.Outcome, err error) {
 	}
 	varied := false
 	for d := 0; d < c.Draws; d++ {
-		s, e := call()
+		s, e := samples[d], errs[d]
 		if e != nil {
 			return o, fmt.Errorf("%s refused valid parameters: %v (factor %v alpha %v n %d)", name, e, c.Factor, c.Alpha, c.N)
 		}
